@@ -49,9 +49,12 @@ def char_dirs(p):
 
 
 def in_band(case):
-    """some pair of characteristic directions (edge / axis / line directions, normals) of the
+    """point_to_circle: the in-plane part of p - c has 0 < squared length < 1.01e-6 (its own `epsilon` test).
+    Otherwise: some pair of characteristic directions (edge / axis / line directions, normals) of the
     two primitives is nearly but not exactly parallel or perpendicular:
     0 < |cos| < 1e-2  or  0 < |sin| < 1e-2   (exact rational comparison of squares)."""
+    if case["fn"] == "point_to_circle":
+        return 0.0 < c10.circle_sqr_len(case) < 1.01e-6
     for a in char_dirs(case["A"]):
         for b in char_dirs(case["B"]):
             ab = pl.dot(a, b)
@@ -140,6 +143,8 @@ def known_id(case, r):
         m0, b1, rm0 = line_circle_branch(case["A"]["p"], case["A"]["d"], case["B"])
         if rm0 > b1 > 0.0:
             return "F8"           # the arm that uses the mis-transcribed s_hat
+    if fn in ("plane_to_triangle", "plane_to_rectangle", "plane_to_box") and c10.shallow_crossing(case):
+        return "FD1"
     if fn == "disk_to_disk":
         cls = disk_class(case)
         if cls == "general":
